@@ -2,7 +2,7 @@ SPECIFICATION Spec
 CONSTANTS
   Budget = 2
   MaxTok = 40
-  K = 16
+  K = 64
   Dump = TRUE
 INVARIANT TypeOK
 INVARIANT Balanced
